@@ -179,8 +179,18 @@ def handle (st : St) (toks : List String) : St × String :=
     let d := (ops.splitOn ",").foldl (fun (d : Dir String) o =>
       match o.splitOn ":" with
       | ["unlink", n] => step d (.unlink n)
+      | ["put", n, h] =>
+        -- an earlier, completed save of the worker's history (flush_all_updates): durable content
+        match (if h == "-" then some [] else parseHex h) with
+        | some b => upd d n (some ⟨b, b.length⟩)
+        | none => d
       | _ => d) st.dir
-    ({ st with dir := d }, "ok")
+    let names := (ops.splitOn ",").foldl (fun acc o =>
+      match o.splitOn ":" with
+      | [_, n] => insertSorted n acc
+      | [_, n, _] => insertSorted n acc
+      | _ => acc) st.names
+    ({ st with dir := d, names := names }, "ok")
   | ["state", i, k] =>
     match i.toNat?, k.toNat? with
     | some i, some k =>
